@@ -10,6 +10,7 @@ import collections
 import re
 import sys
 import types
+import warnings
 
 from vf import core, sbx
 
@@ -336,7 +337,7 @@ def data_routes():
     F("max", 'xs2|max(attribute="@A")', False)
     F("min-dotted", 'hs2|min(attribute="x.@A")', False)
     F("sum", 'xs|sum(attribute="@A")')
-    F("sum-start", 'xs2|sum(attribute="@A", start="")')
+    F("sum-start", 'xs2|sum(attribute="@A", start=[])')
     F("sum-dotted", 'hs|sum(attribute="x.@A")')
     F("join", 'xs2|join(",", attribute="@A")')
     F("join-dotted", 'hs|join(",", "x.@A")')
@@ -548,7 +549,7 @@ def forbidden_values(objs, A):
     for o in objs:
         try:
             Fs.append(getattr(o, A))
-        except AttributeError:
+        except Exception:  # noqa: BLE001  (AttributeError; UndefinedError for undefined bases)
             pass
     return Fs
 
@@ -592,13 +593,21 @@ def outcome_class(res):
     return ("exc", cls)
 
 
-def run_once(cfg, src, data):
+def run_once(cfg, src, data, compiled=None):
+    """Fresh environment + recorder; `compiled` (from sbx.compile_src under the
+    same configuration) only saves recompiling the same source."""
     rec = Rec()
     env = make_env(cfg, rec)
     del TOUCHED[:]
-    res = sbx.render(env, src, data)
+    if compiled is None:
+        compiled = sbx.compile_src(env, src)
+    res = sbx.render_code(env, compiled, data)
     touched = [t for t in TOUCHED]
     return res, rec, touched, env
+
+
+def compile_cfg(cfg, src):
+    return sbx.compile_src(make_env(cfg, Rec()), src)
 
 
 def script_for(cfg, src, kind, A, extra):
@@ -616,12 +625,10 @@ def script_for(cfg, src, kind, A, extra):
     )
 
 
-def check_struct(p, env, src, tag):
-    try:
-        py = env.compile(src, raw=True)
-    except Exception:  # noqa: BLE001
+def check_struct(p, asy, src, compiled, tag):
+    if compiled[0] != "code":
         return
-    viol, st = sbx.structural(py)
+    viol, st = sbx.structural(compiled[2])
     p.count("struct_programs")
     p.count("struct_gated_accesses", st["environment.getattr"] + st["environment.getitem"] + st["environment.call"])
     p.count("struct_slice_exempt", st["slice_exempt"])
@@ -632,8 +639,14 @@ def check_struct(p, env, src, tag):
         p.violation(f"C17/struct/{kind}/{tag}", {
             "msg": f"generated code touches a template-controlled value outside the sandbox: {code!r} in program {src!r}",
             "script": "from jinja2.sandbox import SandboxedEnvironment\n"
-                      f"print(SandboxedEnvironment(enable_async={env.is_async!r}).compile({src!r}, raw=True))\n",
+                      f"print(SandboxedEnvironment(enable_async={asy!r}).compile({src!r}, raw=True))\n",
         })
+
+
+#: bases for which "forbidden == missing" is not a valid relation: a missing attribute of the class `dict`
+#: falls back to dict["name"] which *succeeds* (types.GenericAlias), and an attribute of an undefined
+#: value raises UndefinedError while its dunder attributes are (unsafe) undefined values.
+NO_RELATION = ("runtime:dict", "runtime:undefined")
 
 
 def judge(p, cfg, rid, is_fmt, src, kind, A, extra, Fs, res, rec, touched, ctl_res, liveobj=None):
@@ -653,10 +666,14 @@ def judge(p, cfg, rid, is_fmt, src, kind, A, extra, Fs, res, rec, touched, ctl_r
             if nd in out and nd not in ctl_out:
                 bad.append(("leak-str", f"str() of the forbidden object in the output: {nd[:60]!r}"))
                 break
-    if res[0] == "exc" and res[1] != "SecurityError":
-        if not is_fmt:
+    if kind in NO_RELATION:
+        ctl_res = None
+    if Fs and res[0] == "exc" and res[1] not in ("SecurityError", "UndefinedError" if kind in NO_RELATION else "") and not is_fmt:
+        # an exception class other than SecurityError is tolerated only when the route raises the very
+        # same class for an attribute that does not exist (e.g. an already awaited coroutine in async mode)
+        if not (ctl_res is not None and ctl_res[0] == "exc" and ctl_res[1] == res[1]):
             bad.append(("exc", f"raised {res[1]}: {res[2]} (neither undefined nor SecurityError)"))
-    if ctl_res is not None and outcome_class(res) != outcome_class(ctl_res):
+    if Fs and ctl_res is not None and outcome_class(res) != outcome_class(ctl_res):
         if not (is_fmt and res[0] == "exc" and ctl_res[0] == "exc"):
             bad.append(("differs", f"outcome {outcome_class(res)!r} != outcome for a missing attribute {outcome_class(ctl_res)!r}"))
     for k, why in bad[:1]:
@@ -671,7 +688,9 @@ def judge(p, cfg, rid, is_fmt, src, kind, A, extra, Fs, res, rec, touched, ctl_r
 def data_shard(arg):
     cfg, route_ids = arg
     core.import_all_jinja()
+    warnings.simplefilter("ignore", RuntimeWarning)  # reprs of async loop contexts create unawaited coroutines
     p = core.Part()
+    asy = CONFIGS[cfg][0]
     routes = {r[0]: r for r in data_routes()}
     for rid in route_ids:
         _, fn, is_fmt, _value = routes[rid]
@@ -682,33 +701,46 @@ def data_shard(arg):
 
         # liveness: the route delivers a *public* attribute (otherwise it tests nothing)
         live = False
+        src, extra = build(PUBLIC_NAME)
+        comp = compile_cfg(cfg, src)
+        csrc, cextra = build(MISSING_NAME)
+        ccomp = compile_cfg(cfg, csrc)
         for kind in ("probe", "function", "class"):
-            src, extra = build(PUBLIC_NAME)
             data, objs = build_data(kind, PUBLIC_NAME, extra)
-            res, rec, touched, env = run_once(cfg, src, data)
+            res, rec, touched, env = run_once(cfg, src, data, comp)
             pubs = [getattr(o, PUBLIC_NAME) for o in objs]
             if (sbx.deep_find(rec.values, lambda v: any(v is x for x in pubs)) or PUBMARK in res[-1]
                     or any(m == PUBMARK for m, _ in touched)):
                 live = True
             dispose(objs)
+            cdata, cobjs = build_data(kind, MISSING_NAME, cextra)
+            if outcome_class(run_once(cfg, csrc, cdata, ccomp)[0]) != outcome_class(res):
+                live = True  # a defined public attribute is observably different from a missing one
+            dispose(cobjs)
         if not live:
-            raise core.HarnessError(f"route {rid} [{cfg}] never delivers a public attribute: {build(PUBLIC_NAME)[0]!r} -> {res!r}")
-        for kind in KINDS:
-            for A in NAMES:
+            if is_fmt and res[0] == "exc" and res[1] in ("KeyError", "IndexError", "ValueError", "TypeError"):
+                # the sandboxed formatter rejects the field syntax altogether on this python
+                # (string.Formatter of 3.12 has no auto-numbering for '{.a}'): nothing can leak
+                p.count("format_routes_rejected_by_formatter")
+                p.sig(("dead-format-route", rid.split("-")[1], res[1]))
+            else:
+                raise core.HarnessError(f"route {rid} [{cfg}] never delivers a public attribute: {src!r} -> {res!r}")
+        for A in NAMES:
+            src, extra = build(A)
+            comp = compile_cfg(cfg, src)
+            check_struct(p, asy, src, comp, rid)
+            for kind in KINDS:
                 p.evals += 1
-                src, extra = build(A)
                 data, objs = build_data(kind, A, extra)
                 Fs = forbidden_values(objs, A)
                 if Fs and not model_forbidden(objs[0], A):
                     raise core.HarnessError(f"name {A} exists on {kind} but the model does not forbid it")
-                res, rec, touched, env = run_once(cfg, src, data)
+                res, rec, touched, env = run_once(cfg, src, data, comp)
                 dispose(objs)
-                check_struct(p, env, src, rid)
                 ctl_res = None
                 if Fs:
-                    csrc, cextra = build(MISSING_NAME)
                     cdata, cobjs = build_data(kind, MISSING_NAME, cextra)
-                    ctl_res = run_once(cfg, csrc, cdata)[0]
+                    ctl_res = run_once(cfg, csrc, cdata, ccomp)[0]
                     dispose(cobjs)
                 sig = judge(p, cfg, rid, is_fmt, src, kind, A, extra, Fs, res, rec, touched, ctl_res)
                 if Fs:
@@ -725,25 +757,30 @@ def data_shard(arg):
 def rt_shard(arg):
     cfg, base_ids = arg
     core.import_all_jinja()
+    warnings.simplefilter("ignore", RuntimeWarning)
     p = core.Part()
+    asy = CONFIGS[cfg][0]
     bases = {b[0]: b for b in runtime_bases()}
     for bid in base_ids:
         _, pre, bexpr, post = bases[bid]
         for rrid, rfn, is_fmt in RT_ROUTES:
             rid = f"rt-{rrid}"
+
+            def build(name):
+                return pre + "{{ %s|c17cap }}" % bexpr + rfn(bexpr, name) + post
+
+            csrc = build(MISSING_NAME)
+            ccomp = compile_cfg(cfg, csrc)
             for A in NAMES:
                 p.evals += 1
-
-                def build(name):
-                    return pre + "{{ %s|c17cap }}" % bexpr + rfn(bexpr, name) + post
-
                 src = build(A)
-                res, rec, touched, env = run_once(cfg, src, {})
-                check_struct(p, env, src, rid)
+                comp = compile_cfg(cfg, src)
+                res, rec, touched, env = run_once(cfg, src, {}, comp)
+                check_struct(p, asy, src, comp, rid)
                 Fs = forbidden_values(rec.captured, A)
                 ctl_res = None
                 if Fs:
-                    ctl_res = run_once(cfg, build(MISSING_NAME), {})[0]
+                    ctl_res = run_once(cfg, csrc, {}, ccomp)[0]
                 sig = judge(p, cfg, f"{rid}/{bid}", is_fmt, src, "runtime:" + bid, A, None, Fs, res, rec, touched, ctl_res)
                 if Fs:
                     p.count("nontrivial")
